@@ -59,7 +59,7 @@ def runModel (c : Case) : String :=
   let x' := if c.mode = "h" then shiftVars 1000 c.x else c.x
   let tmpl := template c x'
   let r := match c.mode with
-    | "u" | "f" | "m" => unify fuel false [] x' c.y   -- "m": the arguments one after the other = left to right
+    | "u" | "f" | "m" | "k" => unify fuel false [] x' c.y   -- "m": the arguments one after the other = left to right
     | "r" => unify fuel false [] c.y x'
     | "o" => unify fuel true [] x' c.y
     | _ => unify fuel false [] c.y x'          -- "h": exec unifies the argument with the head skeleton
